@@ -1,4 +1,719 @@
-def run_e2e(ctx, scratch, extra_strings=None, deep=False):
-    pass
-def replay_case(ctx, scratch, case):
-    pass
+"""C03 tie (b): end to end.  Generated projects put hostile strings into every command position;
+`meson setup` (fake ninja on PATH) writes build.ninja; the build statements are read back, each
+command string is computed by the Lean model's `ninjaEval` (rule bindings + statement bindings +
+$in/$out), executed by real /bin/sh with a dumper in place of the tool, and the recorded argv is
+compared with the list the build definition gave, modulo the documented rewrites only.
+
+The oracle is written from the property statement: it uses neither /repo's quoting functions nor
+the model's.  Its only model dependency is the consumer specification `ninjaEval` (there is no
+ninja binary) and, for response files, `buildargv` (cross-checked with real gcc where possible).
+"""
+from __future__ import annotations
+
+import json
+import os
+import re
+import subprocess
+import sys
+import typing as T
+from concurrent.futures import ThreadPoolExecutor
+
+from . import common
+from .common import Ctx, enc, dec
+
+FAKEBIN = os.path.join(common.VERIF, 'harness', 'fakebin')
+
+DUMPER = r'''
+import json, os, sys
+argv = sys.argv[1:]
+mvid = os.environ.get('MV_ID')
+if mvid is None and argv and argv[0].startswith('mvid='):
+    mvid = argv[0][5:]
+    argv = argv[1:]
+rec = {'argv': argv, 'env': {k: v for k, v in os.environ.items() if k.startswith('MV_E')}, 'cwd': os.getcwd()}
+with open(os.path.join(os.environ['MV_DUMP'], mvid + '.jsonl'), 'a', encoding='utf-8', errors='surrogateescape') as f:
+    f.write(json.dumps(rec) + '\n')
+'''
+
+CCWRAP = '''#!/bin/sh
+# compiler stand-in: real cc while meson probes it, dumper when the harness executes a build statement
+if [ -n "$MV_ID" ]; then exec "{py}" "{dump}" "$@"; fi
+exec cc "$@"
+'''
+
+HOSTILE = ['a b', '$x', '${HOME}', '$(id)', '`id`', 'a;b', '*', '~', '#c', "it's", '"q"', '\\', 'a\\b', 'tail\\',
+           '-DFOO="bar baz"', 'a&&b', '&', '|', '>', '<in', '$$', '$ ', ' lead', 'trail ', '\t', 'é', '中文', '€',
+           '', "'", '"', "'\"'\"'", '$in', '$out', '${in}', 'a:b', 'a=b', '%s', '!x', '{a,b}', '[ab]', '?', '^',
+           'x\x01y', 'x\x7fy', '\\n', '\\\\', "\\'", '@', '@@', 'a@b', '--capture', '--', '-h', '--unpickle=x']
+
+
+def msn(s: str) -> str:
+    """meson single-quoted string literal"""
+    out = []
+    for c in s:
+        o = ord(c)
+        if c == '\\':
+            out.append('\\\\')
+        elif c == "'":
+            out.append("\\'")
+        elif 32 <= o < 127:
+            out.append(c)
+        elif o < 256:
+            out.append('\\x%02x' % o)
+        elif o < 0x10000:
+            out.append('\\u%04x' % o)
+        else:
+            out.append('\\U%08x' % o)
+    return "'" + ''.join(out) + "'"
+
+
+def msl(l: T.Iterable[str]) -> str:
+    return '[' + ', '.join(msn(x) for x in l) + ']'
+
+
+def hostile(rng, extra: T.List[str], allow_nl: bool) -> str:
+    from .c03 import rand_string, ALPHABET
+    r = rng.random()
+    if extra and r < 0.3:
+        s = rng.choice(extra)
+    elif r < 0.55:
+        s = rng.choice(HOSTILE)
+    elif r < 0.7:
+        s = ''.join(rng.choice(ALPHABET) for _ in range(rng.randint(1, 3)))
+    else:
+        s = rand_string(rng, 10)
+    s = s.replace('\0', '')
+    if not allow_nl:
+        s = s.replace('\n', 'N')
+    # stay clear of accidental template names (the generator adds templates deliberately)
+    s = re.sub(r'@([A-Z_0-9]+)@', r'@ \1@', s)
+    return s
+
+
+# ---------------------------------------------------------------- expected argv (from the property statement)
+
+def expect_custom(args: T.List[str], subst: T.Dict[str, str]) -> T.List[T.List[str]]:
+    """custom_target / run_target / generator: @TEMPLATE@ substituted, backslash -> '/', `&&` separates"""
+    cmds: T.List[T.List[str]] = [[]]
+    for a in args:
+        if a == '&&':
+            cmds.append([])
+            continue
+        for k, v in subst.items():
+            a = a.replace(k, v)
+        cmds[-1].append(a.replace('\\', '/'))
+    return cmds
+
+
+# ---------------------------------------------------------------- project generation
+
+class Site(T.NamedTuple):
+    sid: str
+    position: str      # custom_target | run_target | generator | test | c_args | project_args | link_args | project_link_args
+    mode: str          # plain | capture | feed | env | workdir | rsp
+    args: T.List[str]
+    env: T.List[T.Tuple[str, str]]
+
+
+def gen_project(rng, idx: int, kind: str, extra: T.List[str], nsites: int) -> T.Tuple[T.List[Site], str]:
+    """kind: 'mixed' (custom/run/generator/test/compile, plain rules), 'rsp' (compile+link through response files),
+    'nl-compile' (newline in c_args), 'nl-env' (newline in a custom_target env value)"""
+    sites: T.List[Site] = []
+    L = ["project('p%d', 'c')" % idx, "py = find_program(%s)" % msn(sys.executable), "dump = files('dump.py')"]
+
+    def envdef(name: str, env: T.List[T.Tuple[str, str]]) -> None:
+        L.append(f'{name} = environment()')
+        for k, v in env:
+            L.append(f'{name}.set({msn(k)}, {msn(v)})')
+
+    def mkenv(sid: str, allow_nl: bool) -> T.List[T.Tuple[str, str]]:
+        return [(f'MV_E{j}', hostile(rng, extra, allow_nl)) for j in range(rng.randint(1, 2))]
+
+    if kind == 'nl-env':
+        env = [('MV_E0', 'line1\nline2')]
+        envdef('e0', env)
+        L.append("custom_target('ct0', output: 'ct0.out', command: [py, dump, 'x'], env: e0)")
+        sites.append(Site('ct0', 'custom_target', 'env', ['x'], env))
+        return sites, '\n'.join(L) + '\n'
+    if kind == 'nl-compile':
+        args = ['-DV0=a\nb']
+        L.append(f"executable('e0', 'main.c', c_args: {msl(args)})")
+        sites.append(Site('e0', 'c_args', 'plain', args, []))
+        return sites, '\n'.join(L) + '\n'
+    if kind == 'rsp':
+        pargs = [f'-DP{j}=' + hostile(rng, extra, False) for j in range(rng.randint(1, 3))]
+        L.append(f"add_project_arguments({msl(pargs)}, language: 'c')")
+        sites.append(Site('proj', 'project_args', 'rsp', pargs, []))
+        for i in range(nsites):
+            cargs = [f'-DV{j}=' + hostile(rng, extra, False) for j in range(rng.randint(1, 4))]
+            largs = [f'-Wl,--mv{j}=' + hostile(rng, extra, False) for j in range(rng.randint(0, 3))]
+            L.append(f"executable('e{i}', 'main.c', c_args: {msl(cargs)}, link_args: {msl(largs)})")
+            sites.append(Site(f'e{i}', 'c_args', 'rsp', cargs, []))
+            sites.append(Site(f'e{i}', 'link_args', 'rsp', largs, []))
+        return sites, '\n'.join(L) + '\n'
+
+    # mixed
+    pargs = [rng.choice(['-DP%d=', '-fmvp%d=']) % j + hostile(rng, extra, False) for j in range(rng.randint(1, 3))]
+    plargs = [f'-Wl,--mvp{j}=' + hostile(rng, extra, False) for j in range(rng.randint(0, 2))]
+    L.append(f"add_project_arguments({msl(pargs)}, language: 'c')")
+    L.append(f"add_project_link_arguments({msl(plargs)}, language: 'c')")
+    sites.append(Site('proj', 'project_args', 'plain', pargs, []))
+    sites.append(Site('proj', 'project_link_args', 'plain', plargs, []))
+    for i in range(nsites):
+        pos = rng.choice(['custom_target'] * 4 + ['run_target'] * 2 + ['generator', 'test', 'test', 'compile'])
+        nl = pos in ('custom_target', 'run_target', 'generator', 'test')
+        n = rng.randint(1, 4)
+        if pos == 'custom_target':
+            mode = rng.choice(['plain', 'plain', 'capture', 'feed', 'input', 'env', 'env+capture', 'andand'])
+            args = [hostile(rng, extra, True) for _ in range(n)]
+            if rng.random() < 0.4:
+                tpl = ['@OUTDIR@', '@SOURCE_ROOT@', '@BUILD_ROOT@/z']
+                if 'capture' not in mode:      # meson rejects capture together with @OUTPUT@
+                    tpl += ['@OUTPUT@', 'x@OUTPUT@y', '@OUTPUT0@']
+                args.insert(rng.randint(0, len(args)), rng.choice(tpl))
+            if mode == 'input':
+                args.append(rng.choice(['@INPUT@', 'i=@INPUT@', '@PLAINNAME@', '@BASENAME@.x', '@INPUT0@']))
+            sid = f'ct{i}'
+            env = mkenv(sid, False) if 'env' in mode else []
+            kw = [f"output: '{sid}.out'"]
+            if mode == 'feed':
+                kw += ["input: 'feed.txt'", 'feed: true']
+            if mode == 'input':
+                kw += ["input: 'feed.txt'"]
+            if 'capture' in mode:
+                kw.append('capture: true')
+            if env:
+                envdef(f'env_{sid}', env)
+                kw.append(f'env: env_{sid}')
+            if mode == 'andand':
+                more = [hostile(rng, extra, False) for _ in range(rng.randint(0, 2))]
+                args = [a.replace('\n', 'N') for a in args]
+                cmd = 'py, dump, ' + ', '.join(msn(a) for a in args) + ", '&&', py, dump" + \
+                      ''.join(', ' + msn(a) for a in more)
+                sites.append(Site(sid, pos, mode, args + ['&&'] + more, env))
+            else:
+                cmd = 'py, dump' + ''.join(', ' + msn(a) for a in args)
+                sites.append(Site(sid, pos, mode, args, env))
+            L.append(f"custom_target('{sid}', {', '.join(kw)}, command: [{cmd}])")
+        elif pos == 'run_target':
+            mode = rng.choice(['plain', 'plain', 'env'])
+            args = [hostile(rng, extra, True) for _ in range(n)]
+            if rng.random() < 0.3:
+                args.append(rng.choice(['@SOURCE_ROOT@', 'r=@BUILD_ROOT@']))
+            sid = f'rt{i}'
+            env = mkenv(sid, False) if mode == 'env' else []
+            kw = ''
+            if env:
+                envdef(f'env_{sid}', env)
+                kw = f', env: env_{sid}'
+            L.append(f"run_target('{sid}', command: [py, dump{''.join(', ' + msn(a) for a in args)}]{kw})")
+            sites.append(Site(sid, pos, mode, args, env))
+        elif pos == 'generator':
+            mode = rng.choice(['plain', 'plain', 'capture'])
+            args = [hostile(rng, extra, True) for _ in range(n)]
+            sid = f'g{i}'
+            kw = ', capture: true' if mode == 'capture' else ''
+            L.append(f"gen_{sid} = generator(py, output: '@BASENAME@.h'{kw}, "
+                     f"arguments: [{', '.join(["meson.current_source_dir() / 'dump.py'"] + [msn(a) for a in args] + [msn('@INPUT@'), msn('@OUTPUT@')])}])")
+            L.append(f"executable('x{sid}', 'main.c', gen_{sid}.process('{sid}.in'))")
+            sites.append(Site(sid, pos, mode, args, []))
+        elif pos == 'test':
+            mode = rng.choice(['plain', 'env', 'workdir'])
+            args = [hostile(rng, extra, True) for _ in range(n)]
+            sid = f't{i}'
+            env = mkenv(sid, True) if mode == 'env' else []
+            kw = ''
+            if env:
+                envdef(f'env_{sid}', env)
+                kw += f', env: env_{sid}'
+            if mode == 'workdir':
+                kw += ", workdir: meson.current_source_dir()"
+            L.append(f"test('{sid}', py, args: [dump, 'mvid={sid}'{''.join(', ' + msn(a) for a in args)}]{kw})")
+            sites.append(Site(sid, pos, mode, args, env))
+        else:
+            sid = f'e{i}'
+            cargs = [rng.choice(['-DV%d=', '-DV%d=', '-fmv%d=', '/DW%d=']) % j + hostile(rng, extra, False)
+                     for j in range(rng.randint(1, 4))]
+            largs = [f'-Wl,--mv{j}=' + hostile(rng, extra, False) for j in range(rng.randint(0, 3))]
+            L.append(f"executable('{sid}', 'main.c', c_args: {msl(cargs)}, link_args: {msl(largs)})")
+            sites.append(Site(sid, 'c_args', 'plain', cargs, []))
+            sites.append(Site(sid, 'link_args', 'plain', largs, []))
+    return sites, '\n'.join(L) + '\n'
+
+
+def write_project(root: str, text: str, sites: T.List[Site]) -> T.Tuple[str, str]:
+    src = os.path.join(root, 'src')
+    os.makedirs(src)
+    with open(os.path.join(src, 'meson.build'), 'w', encoding='utf-8') as f:
+        f.write(text)
+    with open(os.path.join(src, 'dump.py'), 'w') as f:
+        f.write(DUMPER)
+    with open(os.path.join(src, 'main.c'), 'w') as f:
+        f.write('int main(void) { return 0; }\n')
+    with open(os.path.join(src, 'feed.txt'), 'w') as f:
+        f.write('feed\n')
+    for s in sites:
+        if s.position == 'generator':
+            with open(os.path.join(src, s.sid + '.in'), 'w') as f:
+                f.write('x\n')
+    cc = os.path.join(src, 'ccwrap')
+    with open(cc, 'w') as f:
+        f.write(CCWRAP.format(py=sys.executable, dump=os.path.join(src, 'dump.py')))
+    os.chmod(cc, 0o755)
+    return src, cc
+
+
+def meson_setup(root: str, src: str, cc: str, rsp: bool) -> T.Tuple[int, str]:
+    env = dict(os.environ, PATH=FAKEBIN + os.pathsep + os.environ.get('PATH', ''), CC=cc, PYTHONPATH=common.REPO,
+               LC_ALL='C.UTF-8')
+    env.pop('MESON_RSP_THRESHOLD', None)
+    if rsp:
+        env['MESON_RSP_THRESHOLD'] = '0'
+    p = subprocess.run([sys.executable, os.path.join(common.REPO, 'meson.py'), 'setup', os.path.join(root, 'b'), src],
+                       env=env, stdout=subprocess.PIPE, stderr=subprocess.STDOUT, timeout=300)
+    return p.returncode, p.stdout.decode('utf-8', 'replace')
+
+
+# ---------------------------------------------------------------- build.ninja reader (layout only; `$` is the model's job)
+
+def split_build_line(line: str) -> T.Tuple[T.List[str], str, T.List[str]]:
+    """`build outs [| implicit]: rule ins [| deps] [|| order]` -> raw (still escaped) explicit outs, rule, explicit ins"""
+    assert line.startswith('build ')
+    toks: T.List[str] = []
+    cur = ''
+    i = 6
+    colon_at = None
+    while i < len(line):
+        c = line[i]
+        if c == '$' and i + 1 < len(line):
+            cur += line[i:i + 2]
+            i += 2
+            continue
+        if c == ' ' or c == ':':
+            if cur:
+                toks.append(cur)
+                cur = ''
+            if c == ':' and colon_at is None:
+                colon_at = len(toks)
+            i += 1
+            continue
+        cur += c
+        i += 1
+    if cur:
+        toks.append(cur)
+    outs = toks[:colon_at]
+    rest = toks[colon_at:]
+    if '|' in outs:
+        outs = outs[:outs.index('|')]
+    rule = rest[0]
+    ins = rest[1:]
+    for bar in ('|', '||'):
+        if bar in ins:
+            ins = ins[:ins.index(bar)]
+    return outs, rule, ins
+
+
+def read_manifest(path: str):
+    rules: T.Dict[str, T.List[T.Tuple[str, str]]] = {}
+    builds: T.List[dict] = []
+    cur = None
+    for line in open(path, encoding='utf-8', newline='\n').read().split('\n'):
+        if line.startswith('rule '):
+            cur = []
+            rules[line[5:]] = cur
+        elif line.startswith('build '):
+            outs, rule, ins = split_build_line(line)
+            b = {'outs': outs, 'rule': rule, 'ins': ins, 'vars': []}
+            builds.append(b)
+            cur = b['vars']
+        elif line.startswith(' ') and cur is not None:
+            m = re.match(r' +([A-Za-z0-9_.-]+) = ?(.*)$', line, re.S)
+            if m:
+                cur.append((m.group(1), m.group(2)))
+        else:
+            cur = None
+    return rules, builds
+
+
+def find_build(builds, pred) -> T.Optional[dict]:
+    for b in builds:
+        if pred(b):
+            return b
+    return None
+
+
+# ---------------------------------------------------------------- execution
+
+def lenc(l):
+    return ','.join('x' + enc(x) for x in l)
+
+
+def ldec(f):
+    return [dec(x[1:]) for x in f.split(',')] if f.strip() else []
+
+
+def read_dump(dumpdir: str, mvid: str) -> T.List[dict]:
+    p = os.path.join(dumpdir, mvid + '.jsonl')
+    if not os.path.exists(p):
+        return []
+    return [json.loads(l) for l in open(p, encoding='utf-8', errors='surrogateescape') if l.strip()]
+
+
+def ordered_once(hay: T.List[str], needles: T.List[str]) -> T.Optional[str]:
+    pos = -1
+    for n in needles:
+        if hay.count(n) != 1:
+            return f'argument {n!r} occurs {hay.count(n)} times in the executed argv'
+        p = hay.index(n)
+        if p < pos:
+            return f'argument {n!r} arrives out of order'
+        pos = p
+    return None
+
+
+def case_of(kind: str, site: Site, extra: dict) -> dict:
+    d = {'position': site.position, 'mode': site.mode, 'project_kind': kind, 'sid': site.sid, 'args': site.args,
+         'env': site.env}
+    d.update(extra)
+    return d
+
+
+def key_of(site: Site) -> str:
+    return f'{site.position}/{site.mode}:{site.args!r}:{site.env!r}'.replace(' ', '␣')
+
+
+def prepare_project(root: str, kind: str, sites: T.List[Site], text: str) -> T.Tuple[int, str]:
+    src, cc = write_project(root, text, sites)
+    return meson_setup(root, src, cc, kind == 'rsp')
+
+
+def run_project(ctx: Ctx, root: str, kind: str, sites: T.List[Site], text: str,
+                prepared: T.Optional[T.Tuple[int, str]] = None) -> None:
+    rc, log = prepared if prepared is not None else prepare_project(root, kind, sites, text)
+    b = os.path.join(root, 'b')
+    dumpdir = os.path.join(root, 'dump')
+    os.makedirs(dumpdir)
+    ctx.tag('e2e:project:' + kind)
+    if rc != 0:
+        tail = log.strip().split('\n')
+        err = next((l for l in tail if l.startswith('ERROR') or 'ERROR:' in l), tail[-1] if tail else '')
+        if kind == 'nl-env' and 'newlines' in log:
+            ctx.violation('env-value-newline',
+                          'custom_target env value containing a newline: `meson setup` fails (the `env K=V` shortcut of '
+                          'as_meson_exe_cmdline only inspects cmd_args), the value never reaches the process',
+                          case_of(kind, sites[0], {'error': err}))
+            return
+        if kind == 'nl-compile' and 'newlines' in log:
+            ctx.violation('compile-arg-newline',
+                          'c_args element containing a newline: `meson setup` fails in ninja_quote, the argument cannot '
+                          'reach the compiler (compile rules have no serialised fallback)',
+                          case_of(kind, sites[0], {'error': err}))
+            return
+        ctx.violation(f'setup-failed:{kind}:{err[:80]}', 'meson setup failed on a generated project: ' + err[:300],
+                      {'position': 'project', 'project_kind': kind, 'meson_build': text, 'log_tail': tail[-6:]})
+        return
+    rules, builds = read_manifest(os.path.join(b, 'build.ninja'))
+
+    # locate the statement of every site
+    jobs: T.List[T.Tuple[Site, dict]] = []
+    for s in sites:
+        if s.position == 'custom_target':
+            st = find_build(builds, lambda x: x['outs'] == [s.sid + '.out'])
+        elif s.position == 'run_target':
+            st = find_build(builds, lambda x: x['outs'] == ['meson-internal__' + s.sid])
+        elif s.position == 'generator':
+            st = find_build(builds, lambda x: x['outs'] == [f'x{s.sid}.p/{s.sid}.h'])
+        elif s.position == 'c_args':
+            st = find_build(builds, lambda x: x['outs'] == [f'{s.sid}.p/main.c.o'])
+        elif s.position == 'link_args':
+            st = find_build(builds, lambda x: x['outs'] == [s.sid])
+        elif s.position in ('project_args', 'project_link_args'):
+            # checked on every compile / link statement of the project below
+            continue
+        elif s.position == 'test':
+            continue
+        else:
+            st = None
+        if st is None:
+            ctx.violation(f'no-build-statement:{s.position}', 'no build statement found for a generated target',
+                          case_of(kind, s, {}))
+            continue
+        jobs.append((s, st))
+
+    # command strings through the model's Ninja evaluation
+    reqs: T.List[str] = []
+    for s, st in jobs:
+        rb = rules.get(st['rule'], [])
+        head = '|'.join([lenc([k for k, _ in rb]), lenc([v for _, v in rb]),
+                         lenc([k for k, _ in st['vars']]), lenc([v for _, v in st['vars']])])
+        # explicit inputs/outputs are $-unescaped by the same evaluator
+        reqs.append(head)
+    path_reqs: T.List[str] = []
+    for s, st in jobs:
+        for ptok in st['ins'] + st['outs']:
+            path_reqs.append(f'nineval ||{enc(ptok)}')
+    path_ans = ctx.driver('quote', path_reqs) if path_reqs else []
+    it = iter(path_ans)
+    lines: T.List[str] = []
+    for (s, st), head in zip(jobs, reqs):
+        ins = [dec(next(it)[3:]) for _ in st['ins']]
+        outs = [dec(next(it)[3:]) for _ in st['outs']]
+        for name in ('command', 'rspfile', 'rspfile_content'):
+            lines.append(f'edge {head}|{lenc(ins)}|{lenc(outs)}|{enc(name)}')
+    ans = ctx.driver('quote', lines) if lines else []
+
+    def execute(job_i: int):
+        s, st = jobs[job_i]
+        cmd_a, rsp_a, cont_a = ans[3 * job_i: 3 * job_i + 3]
+        if not cmd_a.startswith('ok:'):
+            return s, st, None, 'model ninjaEval: ' + cmd_a, None
+        command = dec(cmd_a[3:])
+        is_rsp = st['rule'].endswith('_RSP')
+        content = None
+        if is_rsp:
+            content = dec(cont_a[3:])
+            rpath = os.path.join(b, dec(rsp_a[3:]))
+            os.makedirs(os.path.dirname(rpath), exist_ok=True)
+            with open(rpath, 'w', encoding='utf-8', newline='', errors='surrogateescape') as f:
+                f.write(content)
+        mvid = f'{s.position}-{s.sid}'
+        env = dict(os.environ, MV_DUMP=dumpdir, MV_ID=mvid, PYTHONPATH=common.REPO, LC_ALL='C.UTF-8')
+        p = subprocess.run(['/bin/sh', '-c', command], cwd=b, env=env, stdin=subprocess.DEVNULL,
+                           stdout=subprocess.PIPE, stderr=subprocess.STDOUT, timeout=120)
+        return s, st, p.returncode, p.stdout.decode('utf-8', 'replace')[-300:], content
+
+    with ThreadPoolExecutor(12) as ex:
+        results = list(ex.map(execute, range(len(jobs))))
+
+    proj_args = next((x for x in sites if x.position == 'project_args'), None)
+    proj_largs = next((x for x in sites if x.position == 'project_link_args'), None)
+    bav_reqs: T.List[T.Tuple[Site, dict, str, T.List[str]]] = []
+    for s, st, rc2, out, content in results:
+        ctx.count()
+        ctx.tag(f'e2e:{s.position}:{s.mode}')
+        mvid = f'{s.position}-{s.sid}'
+        recs = read_dump(dumpdir, mvid)
+        cmdvar = dict(st['vars']).get('COMMAND', '')
+        wrap = 'pickled' if '--unpickle' in cmdvar else ('internal-exe' if '--internal exe' in cmdvar else
+                                                          ('env' if cmdvar.startswith('env ') else 'direct'))
+        if s.position in ('custom_target', 'run_target', 'generator'):
+            ctx.tag('e2e:wrap:' + wrap)
+        if rc2 != 0 or not recs:
+            ctx.violation(key_of(s), f'executing the build statement failed (rc={rc2}): {out}',
+                          case_of(kind, s, {'raw_COMMAND': cmdvar}))
+            continue
+        if s.position in ('custom_target', 'run_target', 'generator'):
+            subst = {'@SOURCE_ROOT@': '../src', '@BUILD_ROOT@': '.'}
+            if s.position == 'custom_target':
+                subst.update({'@OUTPUT@': s.sid + '.out', '@OUTPUT0@': s.sid + '.out', '@OUTDIR@': '.'})
+                if s.mode == 'input':
+                    subst.update({'@INPUT@': '../src/feed.txt', '@INPUT0@': '../src/feed.txt',
+                                  '@PLAINNAME@': 'feed.txt', '@BASENAME@': 'feed'})
+            want = expect_custom(s.args, subst)
+            got = [r['argv'] for r in recs]
+            if s.position == 'generator':
+                # trailing @INPUT@ @OUTPUT@ words are path plumbing, not user strings
+                got = [g[:-2] for g in got]
+            if s.mode == 'andand':
+                # the second command is `py dump more…`: its argv[0] (the dumper script path) is dropped by python
+                pass
+            if got != want:
+                ctx.violation(key_of(s), f'argv differs: expected {want!r}, executed {got!r} (wrapping: {wrap})',
+                              case_of(kind, s, {'expected': want, 'got': got, 'raw_COMMAND': cmdvar}))
+                continue
+            if s.env:
+                for k, v in s.env:
+                    if recs[0]['env'].get(k) != v:
+                        ctx.violation(key_of(s), f'env {k}: expected {v!r}, process saw {recs[0]["env"].get(k)!r}',
+                                      case_of(kind, s, {'raw_COMMAND': cmdvar}))
+            ctx.seen_nontrivial(('e2e', key_of(s)))
+        else:
+            argv = recs[0]['argv']
+            if st['rule'].endswith('_RSP'):
+                ats = [a for a in argv if a.startswith('@')]
+                if len(ats) != 1:
+                    ctx.violation(key_of(s), f'response-file rule did not pass exactly one @file: {argv!r}',
+                                  case_of(kind, s, {}))
+                    continue
+                bav_reqs.append((s, st, content, argv))
+                continue
+            check_compile_argv(ctx, kind, s, argv, proj_args, proj_largs)
+    # response files: tokenise with the model's buildargv; -D operands also with real gcc
+    if bav_reqs:
+        toks = ctx.driver('quote', [f'bav {enc(c)}' for _s, _st, c, _a in bav_reqs])
+        from .c03 import gcc_defines
+        wrapper = os.path.join(root, 'wrap.sh')
+        with open(wrapper, 'w') as f:
+            f.write('#!/bin/sh\nfor a in "$@"; do printf \'%s\\0\' "$a"; done >> "$MV_WRAP_OUT"\nexit 0\n')
+        os.chmod(wrapper, 0o755)
+        for n, ((s, st, content, argv), t) in enumerate(zip(bav_reqs, toks)):
+            full = [a for a in argv if not a.startswith('@')] + ldec(t)
+            check_compile_argv(ctx, kind, s, full, proj_args, proj_largs)
+            if s.position == 'c_args':
+                real = gcc_defines(content, root, n, cwd=b)
+                if real is None:
+                    ctx.tag('e2e:rsp:gcc-rejected')
+                else:
+                    ctx.tag('e2e:rsp:gcc-checked')
+                    want = [expect_compile(a, True)[2:] for a in s.args if a.startswith('-D')]
+                    msg = ordered_once(real, want)
+                    if msg:
+                        ctx.violation(key_of(s), 'through gcc @file: ' + msg, case_of(kind, s, {'gcc_defines': real}))
+
+    # tests through `meson test`
+    tsites = [s for s in sites if s.position == 'test']
+    if tsites:
+        env = dict(os.environ, MV_DUMP=dumpdir, PYTHONPATH=common.REPO, LC_ALL='C.UTF-8',
+                   PATH=FAKEBIN + os.pathsep + os.environ.get('PATH', ''))
+        env.pop('MV_ID', None)
+        p = subprocess.run([sys.executable, os.path.join(common.REPO, 'meson.py'), 'test', '--no-rebuild', '-C', b],
+                           env=env, stdout=subprocess.PIPE, stderr=subprocess.STDOUT, timeout=300)
+        for s in tsites:
+            ctx.count()
+            ctx.tag(f'e2e:test:{s.mode}')
+            recs = read_dump(dumpdir, s.sid)
+            if len(recs) != 1:
+                ctx.violation(key_of(s), f'test did not run exactly once ({len(recs)} records); meson test rc={p.returncode}',
+                              case_of(kind, s, {'log': p.stdout.decode('utf-8', 'replace')[-400:]}))
+                continue
+            if recs[0]['argv'] != s.args:
+                ctx.violation(key_of(s), f'test argv differs: expected {s.args!r}, got {recs[0]["argv"]!r}',
+                              case_of(kind, s, {'got': recs[0]['argv']}))
+                continue
+            for k, v in s.env:
+                if recs[0]['env'].get(k) != v:
+                    ctx.violation(key_of(s), f'test env {k}: expected {v!r}, got {recs[0]["env"].get(k)!r}', case_of(kind, s, {}))
+            ctx.seen_nontrivial(('e2e', key_of(s)))
+
+
+def expect_compile(a: str, per_target: bool) -> str:
+    """per-target -D//D arguments have their backslashes doubled; everything else is unchanged"""
+    if per_target and a[:2] in ('-D', '/D'):
+        return a.replace('\\', '\\\\')
+    return a
+
+
+def check_compile_argv(ctx: Ctx, kind: str, s: Site, argv: T.List[str], proj_args, proj_largs) -> None:
+    groups: T.List[T.Tuple[str, T.List[str]]] = []
+    if s.position == 'c_args':
+        groups.append(('c_args', [expect_compile(a, True) for a in s.args]))
+        if proj_args is not None:
+            groups.append(('add_project_arguments', [expect_compile(a, False) for a in proj_args.args]))
+    else:
+        groups.append(('link_args', list(s.args)))
+        if proj_largs is not None:
+            groups.append(('add_project_link_arguments', list(proj_largs.args)))
+    for gname, want in groups:
+        msg = ordered_once(argv, want)
+        if msg:
+            ctx.violation(key_of(s), f'{gname}: {msg}', case_of(kind, s, {'group': gname, 'expected': want, 'argv': argv}))
+            return
+    ctx.seen_nontrivial(('e2e', key_of(s)))
+
+
+# ---------------------------------------------------------------- entry points
+
+def run_e2e(ctx: Ctx, scratch: str, extra_strings: T.Optional[T.List[str]] = None, deep: bool = False) -> None:
+    if not ctx.model_available:
+        ctx.notes.append('e2e skipped: model driver not available (ninjaEval is needed to expand commands)')
+        return
+    rng = ctx.rng
+    extra = [s.replace('\0', '') for s in (extra_strings or [])]
+    nmixed = 12 if deep else ctx.scale(3, 14)
+    nrsp = 3 if deep else ctx.scale(1, 4)
+    plan: T.List[T.Tuple[str, T.List[Site], str]] = []
+    idx = 0
+    for _ in range(nmixed):
+        sites, text = gen_project(rng, idx, 'mixed', extra, 14 if (deep or ctx.deep) else 10)
+        plan.append(('mixed', sites, text))
+        idx += 1
+    for _ in range(nrsp):
+        sites, text = gen_project(rng, idx, 'rsp', extra, 4)
+        plan.append(('rsp', sites, text))
+        idx += 1
+    for kind in ('nl-env', 'nl-compile'):
+        sites, text = gen_project(rng, idx, kind, extra, 1)
+        plan.append((kind, sites, text))
+        idx += 1
+    roots = []
+    for i, _p in enumerate(plan):
+        r = os.path.join(scratch, f'e2e{i}')
+        os.makedirs(r)
+        roots.append(r)
+
+    # `meson setup` of the independent projects runs concurrently; everything touching `ctx` stays in this thread
+    def prep(i: int):
+        kind, sites, text = plan[i]
+        return prepare_project(roots[i], kind, sites, text)
+    with ThreadPoolExecutor(8) as ex:
+        prepared = list(ex.map(prep, range(len(plan))))
+    for i, (kind, sites, text) in enumerate(plan):
+        run_project(ctx, roots[i], kind, sites, text, prepared[i])
+    ctx.extra['e2e_projects'] = len(plan)
+
+
+def replay_case(ctx: Ctx, scratch: str, case: dict) -> None:
+    """re-run one recorded site in a one-target project"""
+    kind = case.get('project_kind', 'mixed')
+    s = Site(case.get('sid', 's0'), case['position'], case.get('mode', 'plain'), list(case.get('args', [])),
+             [tuple(e) for e in case.get('env', [])])
+    if case['position'] == 'project':
+        text = case['meson_build']
+        sites: T.List[Site] = []
+    else:
+        # regenerate the single definition by a deterministic mini generator
+        import random
+        class _One(random.Random):
+            pass
+        sites, text = single_site_project(s, kind)
+    root = os.path.join(scratch, 'replay')
+    os.makedirs(root)
+    before = len(ctx.violations) + len(ctx.known_hits)
+    run_project(ctx, root, kind, sites, text)
+    print('meson.build:\n' + text)
+    print('violations:', json.dumps(ctx.violations, default=repr)[:1500], 'known:', list(ctx.known_hits))
+
+
+def single_site_project(s: Site, kind: str) -> T.Tuple[T.List[Site], str]:
+    L = ["project('r', 'c')", "py = find_program(%s)" % msn(sys.executable), "dump = files('dump.py')"]
+    if s.env:
+        L.append('e = environment()')
+        for k, v in s.env:
+            L.append(f'e.set({msn(k)}, {msn(v)})')
+    envkw = ', env: e' if s.env else ''
+    a = ''.join(', ' + msn(x) for x in s.args)
+    sid = s.sid
+    if s.position == 'custom_target':
+        kw = [f"output: '{sid}.out'"]
+        if s.mode == 'feed':
+            kw += ["input: 'feed.txt'", 'feed: true']
+        if s.mode == 'input':
+            kw += ["input: 'feed.txt'"]
+        if 'capture' in s.mode:
+            kw.append('capture: true')
+        if s.mode == 'andand':
+            i = s.args.index('&&')
+            a = ''.join(', ' + msn(x) for x in s.args[:i]) + ", '&&', py, dump" + ''.join(', ' + msn(x) for x in s.args[i + 1:])
+        L.append(f"custom_target('{sid}', {', '.join(kw)}, command: [py, dump{a}]{envkw})")
+    elif s.position == 'run_target':
+        L.append(f"run_target('{sid}', command: [py, dump{a}]{envkw})")
+    elif s.position == 'generator':
+        kw = ', capture: true' if s.mode == 'capture' else ''
+        L.append(f"gen = generator(py, output: '@BASENAME@.h'{kw}, arguments: [meson.current_source_dir() / 'dump.py'{a}, '@INPUT@', '@OUTPUT@'])")
+        L.append(f"executable('x{sid}', 'main.c', gen.process('{sid}.in'))")
+    elif s.position == 'test':
+        kw = envkw + (", workdir: meson.current_source_dir()" if s.mode == 'workdir' else '')
+        L.append(f"test('{sid}', py, args: [dump, 'mvid={sid}'{a}]{kw})")
+    elif s.position == 'c_args':
+        L.append(f"executable('{sid}', 'main.c', c_args: {msl(s.args)})")
+    elif s.position == 'link_args':
+        L.append(f"executable('{sid}', 'main.c', link_args: {msl(s.args)})")
+    elif s.position == 'project_args':
+        L.append(f"add_project_arguments({msl(s.args)}, language: 'c')")
+        L.append("executable('e0', 'main.c')")
+        return [s, Site('e0', 'c_args', s.mode, [], [])], '\n'.join(L) + '\n'
+    elif s.position == 'project_link_args':
+        L.append(f"add_project_link_arguments({msl(s.args)}, language: 'c')")
+        L.append("executable('e0', 'main.c')")
+        return [s, Site('e0', 'link_args', s.mode, [], [])], '\n'.join(L) + '\n'
+    return [s], '\n'.join(L) + '\n'
